@@ -74,7 +74,7 @@ def _verify_task(task):
     ex = v.new_executor(base())
     axioms_for = getattr(mod, 'axioms_for', None)
     jobs = discharge.prepare(ex, v.obligations, (lambda ob: axioms_for(ex, ob)) if axioms_for else None)
-    return {'jobs': jobs, 'functions': v.functions, 'undecided': v.undecided, 'covers': v.covers, 'paths': v.stats['paths'],
+    return {'jobs': jobs, 'functions': v.functions, 'undecided': v.undecided, 'covers': v.covers, 'paths': v.stats['paths'], 'stmt_seen': sorted(v.stmt_seen),
             'sym_s': time.time() - t0, 'crashed': getattr(v, 'crashed', False)}
 
 
@@ -108,6 +108,7 @@ def build_and_prove(mod, overrides=None, rlimit=None, second_solver=False, only=
     t_sym = time.time() - t0
     v = _Summary()
     v.functions, v.undecided, v.covers, v.stats, v.crashed = {}, [], [], {'paths': 0}, False
+    v.stmt_seen = set()
     v.repo = _worker_setup(pid, overrides)['repo']
     jobs = []
     seen_generic = set()
@@ -119,6 +120,7 @@ def build_and_prove(mod, overrides=None, rlimit=None, second_solver=False, only=
         v.functions.update(p['functions'])
         v.undecided += p['undecided']
         v.covers += p['covers']
+        v.stmt_seen |= {tuple(x) for x in p.get('stmt_seen', ())}
         v.stats['paths'] += p['paths']
         v.crashed = v.crashed or p['crashed']
     t1 = time.time()
@@ -227,6 +229,15 @@ def check(pid, tier, seed):
             exit_code = max(exit_code, 3)
     if v.crashed:
         exit_code = max(exit_code, 3)
+    # statement coverage of the functions under contract (vacuity guard): a statement no symbolic execution reached carries no obligation
+    from pyvc import coverage
+    unexec = ['%s: %s' % (f, t) for f, ts in coverage.unexecuted(v.repo, v.functions, v.stmt_seen).items() for t in ts]
+    accepted = set(load_lock().get(pid + '#unexecuted', []))
+    new_unexec = [u for u in unexec if u not in accepted]
+    if new_unexec and load_lock().get(pid) is not None:
+        lines.append('CHECKER-ERROR: %d statement(s) of functions under contract were never symbolically executed (no obligation covers them), e.g. %s'
+                     % (len(new_unexec), new_unexec[:3]))
+        exit_code = max(exit_code, 3)
     if v.undecided or unknown:
         exit_code = max(exit_code, 2)
         for label, why in v.undecided:
@@ -237,7 +248,7 @@ def check(pid, tier, seed):
     bounded = []
     import signal
 
-    class _Timeout(Exception):
+    class _Timeout(BaseException):     # not an Exception: a stand-in's own `except Exception` must not turn it into an observed outcome
         pass
 
     def _alarm(signum, frame):
@@ -245,15 +256,17 @@ def check(pid, tier, seed):
     signal.signal(signal.SIGALRM, _alarm)
     for b in getattr(mod, 'BOUNDED', []):
         try:
-            signal.alarm(int(os.environ.get('PYVC_BOUNDED_TIMEOUT', '300')))
+            signal.alarm(int(os.environ.get('PYVC_BOUNDED_TIMEOUT', '900' if thorough else '300')))
             try:
                 res = b(tier, seed)
             finally:
                 signal.alarm(0)
         except _Timeout:
-            res = {'name': getattr(b, '__name__', str(b)), 'label': 'bounded', 'cases': 0, 'bound': 'timed out',
-                   'failures': [{'key': 'timeout', 'input': getattr(b, '__name__', str(b)), 'observed': 'the bounded stand-in did not finish within its time budget (non-termination / lost laziness?)',
-                                 'expected': 'termination', 'replay_code': None}]}
+            # a wall-clock budget says nothing about the property (a loaded machine looks the same as a hang): undecided, never a violation
+            lines.append('UNDECIDED: bounded stand-in %s did not finish within its time budget' % getattr(b, '__name__', b))
+            bounded.append({'name': getattr(b, '__name__', str(b)), 'label': 'bounded', 'cases': 0, 'bound': 'timed out (undecided)', 'failures': []})
+            exit_code = max(exit_code, 2)
+            continue
         except Exception as e:
             lines.append('CHECKER-ERROR: bounded stand-in %s crashed: %r' % (getattr(b, '__name__', b), e))
             traceback.print_exc()
@@ -278,13 +291,17 @@ def check(pid, tier, seed):
         if not hasattr(finder, 'run'):
             continue
         try:
-            signal.alarm(int(os.environ.get('PYVC_BOUNDED_TIMEOUT', '300')))
+            signal.alarm(int(os.environ.get('PYVC_BOUNDED_TIMEOUT', '900' if thorough else '300')))
             try:
                 ncases, w = finder.run()
             finally:
                 signal.alarm(0)
         except _Timeout:
-            ncases, w = 0, {'key': 'timeout', 'input': prefix, 'observed': 'differential replay did not finish within its time budget', 'expected': 'termination', 'replay_code': None}
+            lines.append('UNDECIDED: differential replay %s did not finish within its time budget' % prefix)
+            bounded.append({'name': 'differential replay %s vs %s' % (finder.real_name, finder.ref_name), 'label': 'bounded', 'cases': 0,
+                            'bound': 'timed out (undecided)', 'failures': []})
+            exit_code = max(exit_code, 2)
+            continue
         except Exception as e:
             lines.append('CHECKER-ERROR: differential replay %s crashed: %r' % (prefix, e))
             exit_code = max(exit_code, 3)
@@ -346,6 +363,7 @@ def check(pid, tier, seed):
             'known_finding_obligations': {n: by[n]['status'] for n in open_known if n in by},
             'known_findings_reported': kf_lines,
             'covers': [{'name': n, 'ok': ok} for n, ok in v.covers],
+            'unexecuted_statements': unexec,
             'symbolic_paths': v.stats['paths'],
             'symexec_s': round(t_sym, 2), 'solver_wall_s': round(t_solve, 2),
             'solver_cpu_s': round(sum(r['time'] for r in results), 2),
@@ -396,6 +414,7 @@ def main():
         ev = json.load(open(os.path.join(VERIF, 'evidence', a.pid + '.json')))
         lock = load_lock()
         lock[a.pid] = sorted(o['name'] for o in ev['coverage']['per_obligation'] if o['status'] == 'proved')
+        lock[a.pid + '#unexecuted'] = sorted(ev['coverage'].get('unexecuted_statements', []))
         json.dump(lock, open(os.path.join(VERIF, 'obligations.lock'), 'w'), indent=1, sort_keys=True)
     sys.exit(rc)
 
